@@ -11,7 +11,7 @@ import sys
 import tempfile
 
 INBOX = "/verif/seeded-inbox"
-TARGET = "/tmp/seedtarget"
+TARGET = os.environ.get("SEED_TARGET", "/tmp/seedtarget")
 
 
 def sh(cmd, cwd):
@@ -22,7 +22,7 @@ def sh(cmd, cwd):
 
 def main():
     only = sys.argv[1:]
-    out_path = os.path.join(INBOX, "confirm.json")
+    out_path = os.environ.get("SEED_OUT") or os.path.join(INBOX, "confirm.json")
     results = json.load(open(out_path)) if os.path.exists(out_path) else {}
     tmp = tempfile.mkdtemp(prefix="seedc.")
     wt = os.path.join(tmp, "w")
